@@ -126,6 +126,10 @@ type MustReach struct {
 	Cond   Check
 	Target Callee
 	Min    int
+	// SuccessOnly: only returns whose error result may be nil count as exits (failure returns may skip the target)
+	SuccessOnly bool
+	// TargetOK optionally restricts the target call sites (e.g. by argument)
+	TargetOK func(ci ssa.CallInstruction) bool
 }
 
 func (r *Report) MustReach(s MustReach) {
@@ -140,6 +144,15 @@ func (r *Report) MustReach(s MustReach) {
 	edges := EdgeSet{}
 	run.findPassEdges(s.Cond, edges)
 	targets := Calls(s.Fn, s.Target)
+	if s.TargetOK != nil {
+		var keep []ssa.CallInstruction
+		for _, t := range targets {
+			if s.TargetOK(t) {
+				keep = append(keep, t)
+			}
+		}
+		targets = keep
+	}
 	r.Sites += len(edges) + len(targets)
 	min := s.Min
 	if min == 0 {
@@ -165,7 +178,10 @@ func (r *Report) MustReach(s MustReach) {
 		reach := Reach(e.To(), nil, blocked)
 		for b := range reach {
 			if len(b.Succs) == 0 { // exit block (return / panic)
-				if _, isRet := b.Instrs[len(b.Instrs)-1].(*ssa.Return); isRet {
+				if ret, isRet := b.Instrs[len(b.Instrs)-1].(*ssa.Return); isRet {
+					if s.SuccessOnly && len(ret.Results) > 0 && r.P.errStateAt(ret.Results[len(ret.Results)-1], b, 0) == stNonNil {
+						continue
+					}
 					bad = append(bad, fmt.Sprintf("return at %s is reachable from the branch at %s without calling %s", r.P.Pos(b.Instrs[len(b.Instrs)-1].Pos()), r.P.Pos(blockPos(e.From)), s.Target.Desc))
 				}
 			}
